@@ -391,6 +391,7 @@ type hist struct {
 	done      bool // a panic or a judgement ended the history
 	kind      string
 	nFind     int
+	dropLast  bool
 	mayPanic  bool // malformed histories (dead revert ids, overdrafts, negative amounts) are expected to panic
 }
 
@@ -414,8 +415,23 @@ func (h *hist) class(r common.Hash) string {
 
 func (h *hist) input() string { return "h " + strings.Join(h.acts, " ") }
 
+// hx keeps at most 200 violation records; the four known patterns would exhaust that in the thorough tier and hide a new
+// one, so each known signature is recorded in full only a few times and counted afterwards.
+var knownSeen = map[string]int{}
+
 func (h *hist) violate(kind, sig, detail string) {
+	if sig == sigF1 || sig == sigF2 || sig == sigF3 || sig == sigF4 {
+		knownSeen[sig]++
+		if knownSeen[sig] > 25 {
+			h.dropLast = h.dropLast || sig == sigF3
+			h.run.Count("known-pattern-not-recorded:" + kind)
+			h.nFind++
+			h.done = true
+			return
+		}
+	}
 	h.run.Violate(kind, sig, h.input(), detail)
+	h.dropLast = h.dropLast || sig == sigF3
 	h.nFind++
 	h.done = true
 }
@@ -460,7 +476,7 @@ func (h *hist) disarmedFamily(u *sut, xs []int) bool {
 // classifyLeaf: explain a disagreement between the account trie and the getters (J2/J3/J4/J6 failures).
 func (h *hist) classifyLeaf(u *sut) (kind, sig string) {
 	m := []int{}
-	allF2, allF3 := true, true
+	nF2, nF3 := 0, 0
 	dirty := map[int]bool{}
 	for _, a := range u.s.VerifDirty() {
 		dirty[int(a[common.AddressLength-1])] = true
@@ -475,23 +491,23 @@ func (h *hist) classifyLeaf(u *sut) (kind, sig string) {
 			continue // a live dirty object legitimately differs from the trie until the next Finalise
 		}
 		m = append(m, i)
-		if !(present && !deleted && !armed && !dirty[i] && u.disarmed[i]) {
-			allF2 = false
-		}
-		if !(present && deleted && !suicided && leafEmpty && u.mixed[i] && !u.s.Exist(addr(i))) {
-			allF3 = false
+		switch {
+		case present && !deleted && !armed && !dirty[i] && u.disarmed[i]:
+			nF2++ // F2: live cached object without callback, outside the dirty set, after a reverted armed touch
+		case present && deleted && !suicided && leafEmpty && u.mixed[i] && !u.s.Exist(addr(i)):
+			nF3++ // F3: tombstone of an account deleted as empty, re-inserted by Finalise/Commit(false)
+		default:
+			return "", ""
 		}
 	}
-	if len(m) == 0 {
+	switch {
+	case len(m) == 0:
 		return "", ""
-	}
-	if allF2 {
+	case nF3 > 0:
+		return kindF3, sigF3
+	default:
 		return kindF2, sigF2
 	}
-	if allF3 {
-		return kindF3, sigF3
-	}
-	return "", ""
 }
 
 // do executes one action on the history; returns false when the history has ended.
@@ -643,6 +659,9 @@ func (h *hist) do(act string) bool {
 		extra = "/" + cv + ";" + dumpInternal(h.oth.s)
 		h.oth.lastView = cv
 		if cv != view && !u.stale {
+			// a cached object that Copy drops is re-read from a trie leaf whose storage trie may only have been hashed, never
+			// written to the node database (the model abstracts tries to maps): this observation is not part of the case
+			h.dropLast = true
 			if k, s := h.classifyLeaf(u); k != "" {
 				h.obs = append(h.obs, ob+extra)
 				h.violate(k, s, "Copy() does not read back the original: "+fmt.Sprint(diffAddrs(view, cv)))
@@ -653,6 +672,7 @@ func (h *hist) do(act string) bool {
 				h.violate(kindF2, sigF2, fmt.Sprintf("Copy() drops the cached modifications of accounts %v (no callback, not dirty after a reverted touch)", d))
 				return false
 			}
+			h.dropLast = false
 			h.obs = append(h.obs, ob+extra)
 			h.violate("copy-differs", "copy-differs", fmt.Sprintf("Copy() view %s differs from original %s", cv, view))
 			return false
@@ -866,6 +886,12 @@ func noteMixed(u *sut, f []string) {
 }
 
 func (h *hist) finish() {
+	if h.dropLast && len(h.acts) > 0 {
+		// F3 leaves an account in the trie whose storage trie was hashed but never written to the node database; the model
+		// abstracts tries to maps and cannot mirror the resulting read errors, so the observation that exposed F3 is not
+		// part of the correspondence case (the finding itself is reported by the direct judgement).
+		h.acts, h.obs = h.acts[:len(h.acts)-1], h.obs[:len(h.obs)-1]
+	}
 	h.run.Case(h.input(), strings.Join(h.obs, " "))
 	h.run.Count("hist:" + h.kind)
 	n := len(h.acts)
@@ -1129,7 +1155,7 @@ func directed(r *hx.Rng, i int) []string {
 	case 4: // suicide, finalise, re-create in the next transaction, revert
 		return []string{fmt.Sprintf("bl:%d:100", x), fmt.Sprintf("co:%d:60ff", x), "cm:1", "rs:0", fmt.Sprintf("sd:%d", x), "fi:1", "sn", fmt.Sprintf("ab:%d:3", x), fmt.Sprintf("st:%d:2:9", x), "rv:0", "rt:1", "sn", fmt.Sprintf("ca:%d", x), "rv:1", "cm:1", "ro:1"}
 	case 5: // touch of the RIPEMD address is not undone (journal.go special case)
-		return []string{"ab:3:0", "cm:0", "ro:0", "sn", "ab:3:0", "rv:0", "ab:3:4", "rt:1", "sn", "ab:3:0", "rv:0", "cm:1", "ro:1"}
+		return []string{"ab:3:0", "cm:0", "ro:0", "sn", "ab:3:0", "rv:0", "ab:3:4", "rt:1", "sn", "ab:3:0", "rv:1", "cm:1", "ro:1"}
 	case 6: // storage set / clear / revert / commit / reopen
 		return []string{fmt.Sprintf("no:%d:1", x), fmt.Sprintf("st:%d:0:5", x), fmt.Sprintf("st:%d:1:6", x), "cm:1", "ro:0", "sn", fmt.Sprintf("st:%d:0:0", x), "sn", fmt.Sprintf("st:%d:1:9", x), "rv:1", "rt:1", fmt.Sprintf("st:%d:1:0", x), "cm:1", "ro:1"}
 	case 7: // CreateAccount carries the balance over; reverted
@@ -1175,7 +1201,7 @@ func main() {
 
 	nDirected, nRandom, maxActs := 240, 1800, 60
 	if run.Thorough() {
-		nDirected, nRandom, maxActs = 2400, 60000, 90
+		nDirected, nRandom, maxActs = 2400, 40000, 80
 	}
 	dr := rng.Fork(1)
 	for i := 0; i < nDirected; i++ {
